@@ -22,7 +22,17 @@
      <<"IF_LEFT", bl, br>> is re-interpreted here because its bodies may emit operations.
 
    Parameter types carry their entrypoint annotations as trees
-     <<"leaf", name, type>>   <<"node", name, left, right>>      (name "" = not annotated). *)
+     <<"leaf", name, type>>   <<"node", name, left, right>>      (name "" = not annotated).
+
+   Families (variable fam; bounds per family from the generated wrapper module):
+     main     parameter or (int %a) (string %b), storage int: branching and arithmetic, every entrypoint name / argument
+     ops      same contract, alphabet of operation emitters (EMIT, SET_DELEGATE, TRANSFER_TOKENS) and list building
+     dflt     or (int %default) (string %b);  nest  or (or %c (string %b) (int %d)) (or (int %a) (string %e));
+     rootann  or %top (int %a) (string %b);   plain  parameter int, storage pair int string
+     bigmap   storage big_map nat int (the result carries a lazy storage diff allocating the new big_map)
+     view     view "v" string int over storage int: instantiate_view / begin / execute_view / ret
+   Two deviations of the code are modelled as coded in separately named operators (StepUnchecked,
+   DefaultOfAnnotatedRoot); the invariants state what the protocol demands outside them. *)
 EXTENDS MichSem, FiniteSets
 CONSTANTS Fams,         \* the families explored: a family = one contract (parameter, storage) + the alphabet of its code
           MaxLenOf(_),  \* family -> top-level instructions per program
@@ -40,8 +50,9 @@ VARIABLES fam,                     \* the family (contract) of this behaviour
           emitted,                 \* internal operations in emission order
           result,                  \* <<operations, storage, lazy diff>> after a successful End
           failv,                   \* the FAILWITH slot
-          illty                    \* the program is statically ill-typed although its run went through (StepUnchecked)
-vars == <<fam, epname, argv, stov, phase, param, stack, prog, emitted, result, failv, illty>>
+          illty,                   \* the program is statically ill-typed although its run went through (StepUnchecked)
+          deviant                  \* the code resolved the entrypoint differently from the protocol (DefaultOfAnnotatedRoot)
+vars == <<fam, epname, argv, stov, phase, param, stack, prog, emitted, result, failv, illty, deviant>>
 
 \* ===== annotated parameter trees and entrypoints =====
 Leaf(nm, ty) == <<"leaf", nm, ty>>
@@ -63,13 +74,18 @@ Resolve(p, name) ==
   IF \E en \in EpSet(p, <<>>) : en[1] = name THEN <<"ok", (CHOOSE en \in EpSet(p, <<>>) : en[1] = name)[2]>>
   ELSE IF name = "default" THEN <<"ok", <<>>>> ELSE <<"none">>
 
-\* ParameterSection.create_type / from_parameters as coded: a root name first, then the layout of the union
-RootName(p) == IF \E en \in EpSet(p, <<>>) : en[1] = "default" THEN "root" ELSE "default"
+\* ParameterSection.create_type / from_parameters as coded: a root name first (the annotation of the root if there is
+\* one), then the layout of the union.
+\* DEVIATION OF THE CODE (genuine defect, modelled as it is; the check reports it as INFO): when the root of the parameter
+\* type is annotated (`parameter (or %top ..)`) and nothing is annotated %default, the name `default` is refused, although
+\* for the protocol `default` then denotes the whole parameter (it is what a transaction without an entrypoint carries).
+RootName(p) == IF p[2] # "" THEN p[2] ELSE IF \E en \in EpSet(p, <<>>) : en[1] = "default" THEN "root" ELSE "default"
 ResolveCoded(p, name) ==
   IF name = RootName(p) THEN <<"ok", <<>>>>
   ELSE IF p[1] # "node" THEN <<"none">>
   ELSE IF \E en \in EpSet(p, <<>>) : en[1] = name THEN <<"ok", (CHOOSE en \in EpSet(p, <<>>) : en[1] = name)[2]>>
   ELSE <<"none">>
+DefaultOfAnnotatedRoot(p, name) == name = "default" /\ p[2] # "" /\ ~\E en \in EpSet(p, <<>>) : en[1] = "default"
 
 \* ===== the added instructions: typing and execution =====
 OpSlot(kind, data, nn) == S(TOp, <<"op", kind, data, nn>>)
@@ -105,7 +121,8 @@ Exec(i, st, em, chk) ==
 \* ===== the bounded universe =====
 Str(x) == <<"s", <<x>>>>
 IfL(bl, br) == <<"IF_LEFT", bl, br>>
-PtreeOf(fm) == CASE fm = "dflt" -> Node("", Leaf("default", TInt), Leaf("b", TStr))
+PtreeOf(fm) == CASE fm = "rootann" -> Node("top", Leaf("a", TInt), Leaf("b", TStr))
+                 [] fm = "dflt" -> Node("", Leaf("default", TInt), Leaf("b", TStr))
                  [] fm = "nest" -> Node("", Node("c", Leaf("b", TStr), Leaf("d", TInt)), Node("", Leaf("a", TInt), Leaf("e", TStr)))
                  [] fm = "plain" -> Leaf("", TInt)
                  [] fm = "view" -> Leaf("", TStr)                                 \* the argument type of the view
@@ -169,21 +186,22 @@ StuckAlphabet == {<<"CAR">>, <<"SWAP">>, <<"CONS">>, <<"ADD">>, <<"PAIR", 2>>}
 \* ===== the lifecycle =====
 Init == /\ fam \in Fams /\ epname \in EpNames /\ argv \in ArgsOf(epname) /\ stov \in StoVals
         /\ phase = "new" /\ param = <<>> /\ stack = <<>> /\ prog = <<>> /\ emitted = <<>>
-        /\ result = <<>> /\ failv = <<>> /\ illty = FALSE
+        /\ result = <<>> /\ failv = <<>> /\ illty = FALSE /\ deviant = FALSE
 
-\* MichelsonProgram.instantiate: ParameterSection.from_parameters + StorageSection.from_micheline_value
+\* MichelsonProgram.instantiate (ParameterSection.from_parameters + StorageSection.from_micheline_value) / instantiate_view
 Instantiate ==
   /\ phase = "new"
   /\ LET rs == ResolveC(epname) IN
      IF rs[1] = "ok" /\ HasType(argv, StripT(SubTree(Ptree, rs[2]))) /\ HasType(stov, Stype)
      THEN param' = WrapV(rs[2], argv) /\ phase' = "ready"
      ELSE param' = <<>> /\ phase' = "rejected"
+  /\ deviant' = (ResolveC(epname) # ResolveD(epname))
   /\ UNCHANGED <<fam, epname, argv, stov, stack, prog, emitted, result, failv, illty>>
 
-\* MichelsonProgram.begin
+\* MichelsonProgram.begin: push `Pair parameter storage`
 BeginStack == << S(TPair(Ptype, Stype), <<"p", param, stov>>) >>
 Begin == /\ phase = "ready" /\ stack' = BeginStack /\ phase' = "running"
-         /\ UNCHANGED <<fam, epname, argv, stov, param, prog, emitted, result, failv, illty>>
+         /\ UNCHANGED <<fam, epname, argv, stov, param, prog, emitted, result, failv, illty, deviant>>
 
 Taken(i, r) ==
   /\ r # Err("native") /\ r # Err("fuel")
@@ -192,7 +210,7 @@ Taken(i, r) ==
   /\ stack' = (IF r[1] = "ok" THEN r[2] ELSE stack)
   /\ emitted' = (IF r[1] = "ok" THEN r[3] ELSE emitted)
   /\ failv' = (IF r[1] = "fail" THEN r[2] ELSE failv)
-  /\ UNCHANGED <<fam, epname, argv, stov, param, result>>
+  /\ UNCHANGED <<fam, epname, argv, stov, param, result, deviant>>
 
 \* a lower bound on the number of top-level instructions still needed to end properly (every instruction of the alphabets
 \* shrinks the stack by at most one item, and an operation list comes from NIL or out of a pair): programs that cannot be
@@ -250,7 +268,7 @@ End ==
           /\ result' = (IF IsView THEN <<<<>>, V(stack[1]), <<>>>>          \* MichelsonProgram.ret: the value alone
                          ELSE <<V(stack[1])[2][2], V(stack[1])[3], LazyDiff(V(stack[1])[3])>>)
      ELSE /\ phase' = "badend" /\ result' = <<>>
-  /\ UNCHANGED <<fam, epname, argv, stov, param, stack, prog, emitted, failv, illty>>
+  /\ UNCHANGED <<fam, epname, argv, stov, param, stack, prog, emitted, failv, illty, deviant>>
 
 DoStep == \E i \in Alphabet : Step(i)
 DoStepStuck == \E i \in StuckAlphabet \cap Alphabet : StepStuck(i)
@@ -265,8 +283,12 @@ Terminal == {"done", "failed", "stuck", "badend", "rejected"}
 \* (so calling %a with v and calling default with (Left v) are the same run)
 EntrypointIsWrapping ==
   LET rs == ResolveD(epname) IN
+  ~deviant =>
   /\ phase = "rejected" <=> (phase # "new" /\ (rs[1] = "none" \/ ~HasType(argv, StripT(SubTree(Ptree, rs[2])))))
   /\ phase \notin {"new", "rejected"} => param = WrapV(rs[2], argv) /\ HasType(param, Ptype)
+\* the only place where the code's resolution differs from the protocol's is the named defect
+OnlyNamedDeviation == /\ deviant <=> (phase # "new" /\ ~IsView /\ DefaultOfAnnotatedRoot(Ptree, epname))
+                      /\ deviant => phase = "rejected"
 \* the top-level steps agree with the big-step run of the whole program from the initial stack
 Whole == ExecSeq(prog, BeginStack, <<>>, TRUE)
 StepwiseIsWhole ==
